@@ -302,6 +302,16 @@ def _choose_gene(
         genes_at_a_time=1):
 
     for ii in range(genes_at_a_time):
+        if chosen_idx is None:
+            # stop the batch early if no useful gene is left:
+            # the best remaining candidate marks no unfilled
+            # (pair, sign) (utility 0) or was already chosen
+            # (utility -1), or there is no candidate at all
+            if len(sorted_utility_idx) == 0:
+                break
+            if utility_array[sorted_utility_idx[-1]] <= 0:
+                break
+
         (marker_gene_idx_set,
          marker_gene_name_list,
          utility_array,
